@@ -38,7 +38,7 @@ structure InvC (mem : Mem) (q : Q) (ths : Nat → Th) : Prop where
   hasMeta : mem.hasMeta = true
   curBound : q.messageOffset ≤ dataPageSize
   curLive : q.dataPageIndex ∈ mem.dataLive
-  idxLive : q.indexPageIndex ∈ mem.indexLive
+  idxLive : q.indexPageIndex ∈ mem.indexLive ∨ q.indexPageIndex < nextSeq q / indexItemsPerPage
   ent : ∀ n, Readable q n → GoodRegion mem q (entry mem n) ∧ n / indexItemsPerPage ∈ mem.indexLive
   thr : ∀ t r, (ths t).region = some r → GoodRegion mem q r
   wr : ∀ t m pg off, ths t = .written m pg off → ∀ i, i < m.len → mem.data pg (off + i) = m.byte i
@@ -263,14 +263,17 @@ theorem persist_inv {mem : Mem} {q : Q} {ths : Nat → Th} (I : InvC mem q ths) 
   have hnew : nextSeq q / indexItemsPerPage ∈ (persistStores mem q pg off m.len 4).indexLive := by
     rw [persistStores_indexLive]
     by_cases e : nextSeq q / indexItemsPerPage = q.indexPageIndex
-    · left; rw [e]; exact I.idxLive
+    · left; rw [e]
+      rcases I.idxLive with h | h
+      · exact h
+      · omega
     · right; exact ⟨rfl, e⟩
   have hcontent : ∀ n, n ≠ nextSeq q → content (persistStores mem q pg off m.len 4) n = content mem n := by
     intro n hn
     unfold content
     rw [entry_persistStores_ne _ _ _ _ _ _ hn]
     apply readBytes_congr; intro i _; simp
-  refine ⟨⟨?_, ?_, ?_, ?_, ?_, I.curBound, ?_, hnew, ?_, ?_, ?_, ?_, ?_⟩, ?_, ?_, hself⟩
+  refine ⟨⟨?_, ?_, ?_, ?_, ?_, I.curBound, ?_, Or.inl hnew, ?_, ?_, ?_, ?_, ?_⟩, ?_, ?_, hself⟩
   · exact I.ackLo
   · show q.acked ≤ q.appended + 1
     have := I.ackHi; omega
